@@ -18,6 +18,13 @@ PREFER = {
           "particular numerical magnitudes (very small / very large entries, nearly degenerate spectra). Do NOT use in-place modification of the caller's "
           "arguments and do NOT add caches or module-level state (both were used in earlier rounds)."),
 }
+PREFER["5"] = ("This time prefer one of the following kinds of change: (j) a documented optional argument or alternative documented calling form that typical "
+               "use does not exercise (dimension omitted / scalar / array, tolerance arguments, solver keyword arguments, row versus column vectors, lists "
+               "versus arrays); (k) a defect in a shared helper (toqito/helper, toqito/matrix_ops, toqito/matrix_props, toqito/perms) that shows through the "
+               "functions of this property but leaves that helper's own tests passing; (l) a wrong condition of a special-case branch (fast path, closed-form "
+               "shortcut, early return) that triggers only for particular structures such as diagonal, rank-one, commuting, equal or identity inputs; (m) a "
+               "slip in argument conversion: dtype promotion, 0-d arrays, shape handling, integer versus float parameters. Do NOT use in-place modification "
+               "of the caller's arguments, caches / module-level state, or exact-zero priors (all used in earlier rounds).")
 TEMPLATE = open(os.path.join(os.path.dirname(os.path.abspath(__file__)), "seedprompt.template.txt")).read()
 os.makedirs(f"/tmp/seeded{ROUND}", exist_ok=True)
 for line in open("/verif/properties.jsonl"):
